@@ -146,12 +146,19 @@ func c08Script(stmts []string, skip, noProbe map[int]bool) string {
 // reports cut out the two outputs must be equal.
 func c08Binary(tb testing.TB, fs gen.FaultSession) string {
 	skipReal, skipTwin, dropped := map[int]bool{}, map[int]bool{}, map[int]bool{}
+	rejected := []string{}
 	for i, s := range fs.Real {
 		if fs.TwinOf[i] < 0 {
 			dropped[i] = true
 		}
 		if _, perr := parser.Parse(s); perr != nil {
-			// parse errors print an excerpt of the input; they are left to the in-process comparison
+			if dropped[i] && gen.ReaderSafe(s) {
+				// a one-line statement that the front end rejects stays in the script: what the
+				// statement reader keeps from it is part of the session; its message is cut out below
+				rejected = append(rejected, s)
+				continue
+			}
+			// other parse errors print an excerpt of the input; they are left to the in-process comparison
 			skipReal[i] = true
 			if fs.TwinOf[i] >= 0 {
 				skipTwin[fs.TwinOf[i]] = true
@@ -167,6 +174,13 @@ func c08Binary(tb testing.TB, fs gen.FaultSession) string {
 		return fmt.Sprintf("the binary aborts on the twin session:\n%s", clipS(lastLines(twin.out, 10)))
 	}
 	a, b := reportRe.ReplaceAllString(real.out, ""), reportRe.ReplaceAllString(twin.out, "")
+	for _, s := range rejected {
+		// message, the echoed line, the marker line
+		re := regexp.MustCompile(`(?m)^(?:Parser|Lexer): [^\n]*\n` + regexp.QuoteMeta(s) + `\n *\^[~^]*\n`)
+		if loc := re.FindStringIndex(a); loc != nil {
+			a = a[:loc[0]] + a[loc[1]:]
+		}
+	}
 	if a != b {
 		i := 0
 		for i < len(a) && i < len(b) && a[i] == b[i] {
